@@ -195,6 +195,7 @@ func (x *FnExec) staticCall(fr *frame, n *node, in ssa.Instruction, callee *ssa.
 				x.heapHavocCond(st, h, reach)
 			}
 		}
+		x.havocInteriorArgs(st, args, ws, reach, hint)
 		x.trusted["uncontracted repo callee (results arbitrary; write set havocked, except that objects existing before the call are kept where the callee only writes objects it allocates): "+funcKey(callee)] = true
 		res := x.havocVal(hint, resT, reach)
 		x.assumeResultAllocated(st, reach, res)
@@ -314,6 +315,7 @@ func (x *FnExec) applySpec(fr *frame, n *node, in ssa.Instruction, spec *FuncSpe
 			x.heapHavoc(st, h)
 		}
 	}
+	x.havocInteriorArgs(st, args, ws, reach, hint)
 	// preserved heaps: pre-existing objects unchanged; allocation only grows
 	for _, h := range x.preservedHeaps(spec, callee) {
 		if ws[h] {
@@ -975,5 +977,41 @@ func allRefArgsRooted(args []ssa.Value, rooted func(ssa.Value, int) bool) bool {
 func dbgLocal(fn *ssa.Function, h string, site int) {
 	if os.Getenv("TVC_DEBUG_LOCAL") != "" {
 		fmt.Fprintf(os.Stderr, "writes-only-local fails: %s heap %s at check %d\n", fn.String(), h, site)
+	}
+}
+
+// havocInteriorArgs: an argument that is the address of a field / element / local (an interior pointer) is seen by a
+// callee that is not executed in place as a plain pointer; when that callee may write through pointers of that type, the
+// addressed location is given an arbitrary value afterwards.
+func (x *FnExec) havocInteriorArgs(st *State, args []Val, ws map[string]bool, reach, hint string) {
+	for i, a := range args {
+		if a.Addr == nil || a.Addr.T == nil {
+			continue
+		}
+		ad := a.Addr
+		if ad.Root == rootField && ad.Idx == "whole" && len(ad.Path) == 0 {
+			continue // a whole object: its fields live in the field heaps, which the write set covers by name
+		}
+		may := false
+		if stt, ok := ad.T.Underlying().(*types.Struct); ok {
+			for f := 0; f < stt.NumFields(); f++ {
+				hn, _, _ := x.fieldHeap(ad.T, f)
+				if ws[hn] {
+					may = true
+				}
+			}
+		} else if at, ok := ad.T.Underlying().(*types.Array); ok {
+			hn, _ := x.elemHeap(at.Elem())
+			may = ws[hn]
+		} else {
+			hn, _ := x.boxHeap(ad.T)
+			may = ws[hn]
+		}
+		if !may {
+			continue
+		}
+		nv := x.havocVal(fmt.Sprintf("%s_argloc%d", hint, i), ad.T, reach)
+		old := x.loadAddr(st, ad)
+		x.storeAddr(st, ad, ite(reach, nv.S, old))
 	}
 }
